@@ -1134,6 +1134,126 @@ class Model:
         cache[id(fd)] = new
         return new
 
+    def positional(self, fd):
+        """A copy of ``fd`` in which sequences of known length are written out by
+        position: a comprehension over a literal tuple/list (directly, or a local
+        bound once to one) becomes the display of its items, `[f(v) for v in (a, b)]`
+        -> `[f(a), f(b)]`; a tuple target fed from a local bound once to such a
+        display is split, `x, y = L` -> `x = <L[0]>; y = <L[1]>`.  'Treat the three
+        parts of the node in a loop' and 'treat them one by one' are then the same
+        code for a field-by-field analysis.  Returns ``fd`` itself when nothing
+        applies."""
+        cache = self.__dict__.setdefault("_positional_cache", {})
+        if id(fd) in cache:
+            return cache[id(fd)]
+        once = {}
+        counts = {}
+        for a in ast.walk(fd):
+            if isinstance(a, (ast.Assign, ast.AnnAssign, ast.AugAssign, ast.For,
+                              ast.comprehension, ast.NamedExpr, ast.withitem)):
+                tg = a.targets if isinstance(a, ast.Assign) else [
+                    getattr(a, "target", None) or getattr(a, "optional_vars", None)]
+                for t in tg:
+                    for x in ast.walk(t) if t is not None else ():
+                        if isinstance(x, ast.Name):
+                            counts[x.id] = counts.get(x.id, 0) + 1
+                if isinstance(a, (ast.Assign, ast.AnnAssign)) and a.value is not None:
+                    t0 = a.targets[0] if isinstance(a, ast.Assign) else a.target
+                    if isinstance(t0, ast.Name):
+                        once[t0.id] = a.value
+        mutated = {x.func.value.id for x in ast.walk(fd) if isinstance(x, ast.Call)
+                   and isinstance(x.func, ast.Attribute) and x.func.attr in _MUTATORS
+                   and isinstance(x.func.value, ast.Name)}
+        once = {k: v for k, v in once.items() if counts.get(k) == 1 and k not in mutated}
+
+        def display_of(e):
+            if isinstance(e, ast.Name) and e.id in once:
+                e = once[e.id]
+            if isinstance(e, (ast.Tuple, ast.List)) and 1 <= len(e.elts) <= 8 \
+                    and not any(isinstance(x, ast.Starred) for x in e.elts) \
+                    and all(_plain(x) for x in e.elts):
+                return e
+            return None
+        changed = [False]
+        outer = self
+
+        class T(ast.NodeTransformer):
+            def _comp(self, n, mk):
+                self.generic_visit(n)
+                if len(n.generators) == 1 and not n.generators[0].ifs \
+                        and isinstance(n.generators[0].target, ast.Name):
+                    d = display_of(n.generators[0].iter)
+                    if d is not None:
+                        v = n.generators[0].target.id
+
+                        class S_(ast.NodeTransformer):
+                            def __init__(self, rep):
+                                self.rep = rep
+
+                            def visit_Name(self, x):
+                                return _cp(self.rep) if x.id == v and isinstance(
+                                    x.ctx, ast.Load) else x
+                        changed[0] = True
+                        return mk([S_(it).visit(_cp(n.elt)) for it in d.elts])
+                return n
+
+            def visit_ListComp(self, n):
+                return self._comp(n, lambda el: ast.List(elts=el, ctx=ast.Load()))
+
+            def visit_Call(self, n):
+                self.generic_visit(n)
+                # tuple(<display>) / list(<display>) of a written-out comprehension
+                if isinstance(n.func, ast.Name) and n.func.id in ("tuple", "list") \
+                        and len(n.args) == 1 and not n.keywords:
+                    a = n.args[0]
+                    if isinstance(a, ast.GeneratorExp):
+                        r = self._comp(a, lambda el: ast.Tuple(elts=el, ctx=ast.Load()))
+                        if r is not a:
+                            return r if n.func.id == "tuple" else ast.List(
+                                elts=r.elts, ctx=ast.Load())
+                return n
+        new = T().visit(_cp(fd))
+        # second step: tuple targets fed from a local bound once to a display
+        once2 = {}
+        for a in ast.walk(new):
+            if isinstance(a, (ast.Assign, ast.AnnAssign)) and a.value is not None:
+                t0 = a.targets[0] if isinstance(a, ast.Assign) else a.target
+                if isinstance(t0, ast.Name) and t0.id in once \
+                        and isinstance(a.value, (ast.Tuple, ast.List)):
+                    once2[t0.id] = a.value
+        for n in ast.walk(new):
+            for fld in ("body", "orelse", "finalbody"):
+                blk = getattr(n, fld, None)
+                if not (isinstance(blk, list) and blk and isinstance(blk[0], ast.stmt)):
+                    continue
+                out = []
+                for s_ in blk:
+                    if isinstance(s_, ast.Assign) and len(s_.targets) == 1 \
+                            and isinstance(s_.targets[0], ast.Tuple) \
+                            and all(isinstance(t, ast.Name) for t in s_.targets[0].elts) \
+                            and isinstance(s_.value, ast.Name) and s_.value.id in once2 \
+                            and len(once2[s_.value.id].elts) == len(s_.targets[0].elts) \
+                            and all(_plain(x) for x in once2[s_.value.id].elts):
+                        for t, v in zip(s_.targets[0].elts, once2[s_.value.id].elts):
+                            a = ast.Assign(targets=[t], value=_cp(v), lineno=s_.lineno)
+                            ast.copy_location(a, s_)
+                            out.append(a)
+                        changed[0] = True
+                    else:
+                        out.append(s_)
+                setattr(n, fld, out)
+        if not changed[0]:
+            cache[id(fd)] = fd
+            return fd
+        ast.fix_missing_locations(new)
+        for p_ in ast.walk(new):
+            for ch in ast.iter_child_nodes(p_):
+                ch._parent = p_
+        new._parent = getattr(fd, "_parent", None)
+        new._derived = True
+        cache[id(fd)] = new
+        return new
+
     def normal(self, fd):
         """``fd`` with private helpers inlined, single-assignment locals propagated
         and fill-loops written as comprehensions: the form in which 'extract
